@@ -554,7 +554,6 @@ class State(MutableMapping):
             self._last_fork = None
             return
         to_revert = subset.to(torch.bool)
-        to_keep = ~to_revert
         for k, old_v in self._last_fork.items():
             cur_v = self._values[k]
             if old_v is None or cur_v is None:
@@ -563,13 +562,17 @@ class State(MutableMapping):
                 assert (
                     old_v.shape == cur_v.shape
                 ), f"Bad shapes for {k}: {old_v.shape} != {cur_v.shape}"
+                mask = to_revert
                 if right_broadcasting:
                     add_ndim = max(old_v.ndim - to_revert.ndim, 0)
-                    self._values[k] = old_v * unsqueeze_right(
-                        to_revert, ndim=add_ndim
-                    ) + cur_v * unsqueeze_right(to_keep, ndim=add_ndim)
+                    mask = unsqueeze_right(to_revert, ndim=add_ndim)
+                # selection (not arithmetic blending) so that non-finite values do not leak
+                if isinstance(cur_v, WeightedTensor):
+                    self._values[k] = cur_v.valued(
+                        torch.where(mask, old_v.value, cur_v.value)
+                    )
                 else:
-                    self._values[k] = old_v * to_revert + cur_v * to_keep
+                    self._values[k] = torch.where(mask, old_v, cur_v)
         self._last_fork = None
 
     def to_device(self, device: torch.device) -> None:
